@@ -41,8 +41,8 @@ def text(codes):
 def write_tables(ctx, hdr):
     p = os.path.join(ctx.rundir, "opt_tables.txt")
     with open(p, "w") as f:
-        f.write("I %d %d\n" % (sum(1 << b for b in hdr["flags0"]), hdr["int0"]))
         for t, table in enumerate(hdr["tables"], 1):
+            f.write("I %d %d %d\n" % (t, sum(1 << b for b in hdr["flags0"][t - 1]), hdr["int0"]))
             for o in table:
                 f.write("O %d %d %s %d %d %d %s\n" % (t, o["sh"], o["kind"], int(o["pp"]), int(o["dep"]), o["bit"], tok(o["lg"])))
     return p
